@@ -42,6 +42,10 @@ class Scratch:
         self.dir = tempfile.mkdtemp(prefix='verif_c15_')
         self.names = []
         self.k = 0
+        # malt's loader writes every converted entity to a NamedTemporaryFile in the default temp directory and
+        # removes it only at interpreter exit: keep those files inside the scratch directory too
+        self.prev_tempdir = tempfile.tempdir
+        tempfile.tempdir = self.dir
         atexit.register(self.close)
 
     def load(self, text, tag='m'):
@@ -62,6 +66,8 @@ class Scratch:
             sys.modules.pop(name, None)
             linecache.cache.pop(path, None)
         self.names = []
+        if tempfile.tempdir == self.dir:
+            tempfile.tempdir = self.prev_tempdir
         shutil.rmtree(self.dir, ignore_errors=True)
 
 
